@@ -53,6 +53,17 @@ func (c AllOf) SchemaNames() []string {
 	return c.schemaName
 }
 
+// Done removes the name of the schema which is already applied to the node, see
+// loader.CompileAllOf.
+func (c *AllOf) Done(name string) {
+	for i, n := range c.schemaName {
+		if n == name {
+			c.schemaName = append(c.schemaName[:i:i], c.schemaName[i+1:]...)
+			return
+		}
+	}
+}
+
 func (c AllOf) ASTNode() jschema.RuleASTNode {
 	const source = jschema.RuleASTNodeSourceManual
 
